@@ -519,6 +519,8 @@ def Ctx_spec(ctx):
 
 
 def _vec_index(items, idx):
+    if isinstance(idx, ConcVec) and all(isinstance(m, int) and not isinstance(m, bool) for m in idx.items):
+        return ConcVec(items[m] for m in idx.items)          # integer (fancy) index
     if isinstance(idx, ConcVec):            # boolean mask
         if len(idx) != len(items) or not all(isinstance(m, bool) for m in idx.items):
             raise Havoc("mask index")
@@ -1016,6 +1018,14 @@ def _minmax(is_min):
             items = list(args)
         if any(isinstance(i, Opaque) for i in items):
             return Opaque("minmax")
+        # +-inf against finite reals (A1): min(x, +inf) == x, max(x, -inf) == x
+        finite = [i for i in items if not isinstance(i, InfVal)]
+        infs = [i for i in items if isinstance(i, InfVal)]
+        if infs:
+            dominated = [i for i in infs if (i.sign > 0) == (not is_min)]
+            if dominated or not finite:
+                return dominated[0] if dominated else infs[0]
+            items = finite
         r = items[0]
         for x in items[1:]:
             if _num(r) and _num(x):
@@ -1053,6 +1063,8 @@ def _len(ex, st, ctx, args, kwargs):
         if fi is not None:
             return ex.call_function(fi, [v], {}, st, ctx)
     if isinstance(v, (tuple, str, frozenset)):
+        return len(v)
+    if isinstance(v, ConcVec):
         return len(v)
     if isinstance(v, PyIter):
         return len(v.items)
@@ -1257,7 +1269,10 @@ def _isfinite(ex, st, ctx, args, kwargs):
 
 @reg("D.ar_numpy.reshape", "numpy.reshape")
 def _reshape(ex, st, ctx, args, kwargs):
-    return args[0]
+    v = args[0]
+    if isinstance(v, tuple) and len(v) == 1 and isinstance(v[0], ConcVec) and len(args) > 1 and args[1] == (-1,):
+        return v[0]          # reshape(nonzero(mask), (-1,)) of a 1-D mask
+    return v
 
 
 @reg("D.ar_numpy.reciprocal")
@@ -1349,6 +1364,8 @@ def _stack(ex, st, ctx, args, kwargs):
         items = st.obj(v).items
         if len(items) == 1 and ctx.lifted:
             return items[0]
+        if items and all(_scalar(x) for x in items) and not ctx.lifted:
+            return ConcVec(items)        # numpy.stack of scalars: a 1-D array of known length
         return st.new_obj("list", "list", items=list(items))
     raise Havoc("stack")
 
@@ -1479,3 +1496,66 @@ def _same_value(ex, st, ctx, args, kwargs):
     if _scalar(a) != _scalar(b):
         return False
     return a is b or (isinstance(a, Ref) and isinstance(b, Ref) and a == b)
+
+
+@reg("D.ar_numpy.nonzero", "numpy.nonzero")
+def _nonzero(ex, st, ctx, args, kwargs):
+    """numpy.nonzero of a 1-D mask of known length: the tuple (indices,).  Symbolic entries fork the path (one path per subset)."""
+    v = args[0]
+    if not isinstance(v, ConcVec):
+        raise Havoc("nonzero")
+    paths = [(st, [])]
+    for i, m in enumerate(v.items):
+        nxt = []
+        for s_, acc in paths:
+            if isinstance(m, bool) or _num(m):
+                nxt.append((s_, acc + [i] if m else acc))
+                continue
+            b = to_bool(m)
+            s1 = s_.fork()
+            s1.assume(b)
+            if ex.feasible(s1):
+                nxt.append((s1, acc + [i]))
+            s_.assume(z3.Not(b))
+            if ex.feasible(s_):
+                nxt.append((s_, acc))
+        paths = nxt
+    return [(s_, (ConcVec(acc),)) for s_, acc in paths]
+
+
+@reg("D.ar_numpy.argsort", "numpy.argsort")
+def _argsort(ex, st, ctx, args, kwargs):
+    """A3: argsort returns a permutation that sorts (ties keep the original order).  One path per feasible permutation."""
+    import itertools
+    v = args[0]
+    if not isinstance(v, ConcVec):
+        raise Havoc("argsort")
+    n = len(v)
+    if n <= 1:
+        return ConcVec(list(range(n)))
+    if n > 4:
+        raise Havoc("argsort of more than 4 symbolic entries")
+    vals = [to_real(x) for x in v.items]
+    out = []
+    for perm in itertools.permutations(range(n)):
+        conds = []
+        for a, b in zip(perm, perm[1:]):
+            conds.append(vals[a] < vals[b] if a > b else vals[a] <= vals[b])      # stable: equal keys keep index order
+        s_ = st.fork()
+        s_.assume(z3.And(*conds))
+        if ex.feasible(s_):
+            out.append((s_, ConcVec(list(perm))))
+    return out
+
+
+@reg("D.ar_numpy.clip", "numpy.clip")
+def _clip(ex, st, ctx, args, kwargs):
+    x = args[0]
+    lo = args[1] if len(args) > 1 else kwargs.get("min", kwargs.get("a_min"))
+    hi = args[2] if len(args) > 2 else kwargs.get("max", kwargs.get("a_max"))
+    r = x
+    if lo is not None and not isinstance(lo, InfVal):
+        r = TABLE["D.ar_numpy.maximum"](ex, st, ctx, [r, lo], {})
+    if hi is not None and not isinstance(hi, InfVal):
+        r = TABLE["D.ar_numpy.minimum"](ex, st, ctx, [r, hi], {})
+    return r
